@@ -165,6 +165,10 @@ After /repo 5633eae (numpy() of string tensors = object array): DeduplicateHashe
   replacement; C05_dedup_preserves holds for any key relation), but the correspondence had to become relational for deduph:
   the result must equal the model for ONE of three key relations (exact content / strings never share a key / the former
   NUL-padded view).  proposed_fixes/C05-deduph-string-pointer-hash.diff (+ -demo.py) hashes _tobytes for string tensors.
+  Committed as fffc28e: the hashed key is exact content again (keyeq = tensor_eqb for both dedup passes; Model.tensor_hash_eqb,
+  the former NUL-padded view, is no longer used by the check), the alternatives are gone, finding deduph-string-pointer-hash
+  = fixed, witness corpus/C05/fixed-deduph-string-pointer-hash.json.  Speed: the case files of a stream are evaluated by coqc
+  in the background (at most 3 coqc at a time) while the Python side runs the next stream; generated stream in three parts.
 Wall time: quick ~60-110 s under load (40 specs x (22 single passes + 5 sequences) + corpus), thorough ~9-12 min (400 specs).
 """
 
@@ -579,11 +583,9 @@ def model_expr(name: str, p, m, conv: Conv, info, before: str, base: int) -> str
         return f"(fst (cse {cZ(p.size_limit)} {before} {base}))"
     if name in ("dedup", "dedup8", "deduph"):
         order = [gref(g) for g in m.graphs()]
-        # deduph: since 5633eae numpy() of a string tensor is an OBJECT array and hashlib hashes the element POINTERS: for
-        # string tensors the digest (and so which equal tensors meet under one key) depends on the allocator.  The theorem
-        # holds for ANY key relation; the correspondence accepts the result for one of three key relations (KEYEQ is
-        # instantiated in steps_to_coq): exact content, "strings never share a key", the former NUL-padded view.
-        keyeq = "KEYEQ" if name == "deduph" else "tensor_eqb"
+        # deduph: key = (dtype, dims, sha512 of the exact bytes; for string tensors of the length-prefixed strings since
+        # fffc28e) = exact content; a collision of the digest with different content is not modelled
+        keyeq = "tensor_eqb"
         return f"(dedup_inits {keyeq} {cZ(p.size_limit)} {clist(order)} {before})"
     if name in ("lift", "lift0", "liftall"):
         other = []
@@ -725,10 +727,6 @@ def steps_to_coq(steps: list[Step]) -> str:
         conds.append(c.replace("BEFORE", f"b{k}") if c else "true")
         if st.kind == "model" and st.pass_name == "inline":
             flags.append(f"model_agree_deep 12 {st.base} {st.expr.replace('BEFORE', f'b{k}')} a{k}")
-        elif st.kind == "model" and "KEYEQ" in st.expr:
-            e = st.expr.replace('BEFORE', f'b{k}')
-            keys = ["tensor_eqb", "(fun x y => if Z.eqb (t_dtype x) DT_STRING then false else tensor_eqb x y)", "tensor_hash_eqb"]
-            flags.append("(" + " || ".join(f"(if model_agree {st.base} {e.replace('KEYEQ', kq)} a{k} then true else false)" for kq in keys) + ")")
         elif st.kind == "model":
             flags.append(f"model_agree {st.base} {st.expr.replace('BEFORE', f'b{k}')} a{k}")
         elif st.kind == "frame" and st.pass_name == "rmopset" and getattr(st, "ops_before", None) and getattr(st, "ops_after", None):
@@ -1212,15 +1210,20 @@ def coq_run(ck, text: str, tag: str, timeout: int = 240) -> tuple[int, str]:
     return common.sh(["bash", "-c", cmd], cwd=ck.scratch, timeout=timeout + 30)
 
 
-def coq_steps(ck, steps: list[Step], tag: str) -> tuple[list[int], list[int]]:
-    """-> (indices of disagreeing steps, indices of steps whose input is outside the model's precondition)."""
+import threading
+_COQ_SLOTS = threading.Semaphore(3)          # coqc processes at a time (the Python side keeps one core)
+
+
+def coq_steps_raw(ck, steps: list[Step], tag: str):
+    """-> (disagreeing steps, steps outside the model's precondition, steps whose side condition is false); no bookkeeping."""
     import concurrent.futures as cf
     import re
     chunks = [steps[i:i + 40] for i in range(0, len(steps), 40)]
 
     def one(ic):
         i, ch = ic
-        rc, out = coq_run(ck, steps_to_coq(ch), f"{tag}_{i}")
+        with _COQ_SLOTS:
+            rc, out = coq_run(ck, steps_to_coq(ch), f"{tag}_{i}")
         if rc != 0:
             raise RuntimeError(f"case file {tag}_{i} did not compile / ran out of resources:\n{out[-1500:]}")
         lists = re.findall(r"=\s*(\[[^\]]*\]|nil)", out)
@@ -1234,6 +1237,12 @@ def coq_steps(ck, steps: list[Step], tag: str) -> tuple[list[int], list[int]]:
             dis += a
             inv += b
             nocond += c
+    return dis, inv, nocond
+
+
+def coq_steps(ck, steps: list[Step], tag: str, raw=None) -> tuple[list[int], list[int]]:
+    """-> (indices of disagreeing steps, indices of steps whose input is outside the model's precondition)."""
+    dis, inv, nocond = raw if raw is not None else coq_steps_raw(ck, steps, tag)
     # steps of modelled passes whose side condition (hypothesis of C05_sequence) is decided in Coq on this very input
     inv_set = set(inv)
     for i, st in enumerate(steps):
@@ -1475,8 +1484,18 @@ def reuse_cases(rng, n: int):
     return cases
 
 
-def check_cases(ck, cases, tag: str, structural: bool = True):
+_BG = None
+
+
+def _phase(ck, name, t0):
+    import time
+    ck.coverage.setdefault("phase_s", {})[name] = round(ck.coverage.get("phase_s", {}).get(name, 0) + time.time() - t0, 1)
+
+
+def check_cases(ck, cases, tag: str, structural: bool = True, defer: bool = False):
     """Run implementation + oracle on the cases; structural correspondence in Coq. Returns oracle failures."""
+    import time
+    _t0 = time.time()
     steps_all, owners = [], []
     failures = []
     for ci, (spec, passes, seed) in enumerate(cases):
@@ -1512,22 +1531,36 @@ def check_cases(ck, cases, tag: str, structural: bool = True):
                 steps_all.append(st)
         if len(ck.coverage["samples"]) < 4 and changed and len(passes) == 1 and len(json.dumps(spec)) < 1500:
             ck.sample({"spec": spec, "passes": passes, "oracle": "outputs equal before/after", "rewritten": True})
-    mism = []
-    if structural and steps_all:
-        dis, inv = coq_steps(ck, steps_all, tag)
-        inv_set = set(inv)
-        ck.coverage["traces_validated_against_impl"] = ck.coverage.get("traces_validated_against_impl", 0) + len(steps_all) - len(inv_set)
-        for i in inv_set:
-            ck.hist("structural", "input-outside-model-precondition")
-        for i, st in enumerate(steps_all):
-            if i not in inv_set:
-                ck.hist("structural", st.kind + ":" + st.pass_name)
-        for i in dis:
-            if i in inv_set:
-                continue
-            st = steps_all[i]
-            mism.append((st, cases[st.case]))
-    return failures, mism
+    _phase(ck, "python:" + tag.rstrip("012"), _t0)
+    fut = None
+    if defer and structural and steps_all:
+        # the case files are evaluated by coqc in the background while the next stream's Python side runs
+        global _BG
+        if _BG is None:
+            import concurrent.futures as cf
+            _BG = cf.ThreadPoolExecutor(max_workers=4)
+        fut = _BG.submit(coq_steps_raw, ck, steps_all, tag)
+
+    def finish():
+      mism = []
+      if structural and steps_all:
+          dis, inv = coq_steps(ck, steps_all, tag, raw=fut.result() if fut is not None else None)
+          inv_set = set(inv)
+          ck.coverage["traces_validated_against_impl"] = ck.coverage.get("traces_validated_against_impl", 0) + len(steps_all) - len(inv_set)
+          for i in inv_set:
+              ck.hist("structural", "input-outside-model-precondition")
+          for i, st in enumerate(steps_all):
+              if i not in inv_set:
+                  ck.hist("structural", st.kind + ":" + st.pass_name)
+          for i in dis:
+              if i in inv_set:
+                  continue
+              st = steps_all[i]
+              mism.append((st, cases[st.case]))
+      return mism
+    if defer:
+        return failures, finish
+    return failures, finish()
 
 
 def report_failures(ck, failures, reported: set):
@@ -1606,8 +1639,11 @@ def run(ck) -> None:
                     "every step (coverage.side_conditions; outside only for dce on BatchNormalization training_mode). RemoveUnusedOpsets "
                     "is modelled with the opset tables in the term (Opsets.v): C05_remove_unused_opsets_keeps_versions + table "
                     "correspondence in Coq on every run.")
+    import time
+    _tp = time.time()
     generate(ck)
     ck.prove()
+    _phase(ck, "prove", _tp)
     # the case files also use the executable inliner model (C05/Inline.v, InlinePass.v): make sure the .vo are current
     rc, out = common.make(["theories/C05/InlinePass.vo"], timeout=600)
     if rc != 0:
@@ -1616,25 +1652,35 @@ def run(ck) -> None:
     # corpus first
     corpus = _corpus()
     ccases = [(c["spec"], c["passes"], c.get("input_seed", 0)) for c in corpus]
-    failures, mism = check_cases(ck, ccases, "corpus")
-    # generated cases
-    n_specs, n_seq = (30, 5) if not ck.thorough else (300, 8)
+    pending = []
+    failures, t1 = check_cases(ck, ccases, "corpus", defer=True)
+    pending.append(t1)
+    # generated cases (in three parts: coqc works on a part while the Python side runs the next one)
+    n_specs, n_seq = (28, 5) if not ck.thorough else (300, 8)
     cases = gen_cases(ck.rng, n_specs, n_seq)
-    f2, m2 = check_cases(ck, cases, "gen")
-    failures += f2
-    mism += m2
+    third = (len(cases) + 2) // 3
+    for gi in range(3):
+        f2, t2 = check_cases(ck, cases[gi * third:(gi + 1) * third], f"gen{gi}", defer=True)
+        failures += f2
+        pending.append(t2)
     # models of different opsets through the same passes, in this one process
     f3, m3 = check_cases(ck, multi_opset_cases(ck.rng, 12 if not ck.thorough else 80), "multiopset", structural=False)
     failures += f3
     ck.hist("streams", "multi-opset-models")
-    f4, m4 = check_cases(ck, targeted_cases(ck.rng, 6 if not ck.thorough else 40), "targeted")
+    f4, t4 = check_cases(ck, targeted_cases(ck.rng, 6 if not ck.thorough else 40), "targeted", defer=True)
     failures += f4
-    mism += m4
+    pending.append(t4)
     ck.hist("streams", "targeted-templates")
-    f5, m5 = check_cases(ck, reuse_cases(ck.rng, 6 if not ck.thorough else 40), "reuse")
+    f5, t5 = check_cases(ck, reuse_cases(ck.rng, 6 if not ck.thorough else 40), "reuse", defer=True)
     failures += f5
-    mism += m5
+    pending.append(t5)
     ck.hist("streams", "reused-pass-objects")
+    mism = []
+    import time
+    _tw = time.time()
+    for t in pending:
+        mism += t()
+    _phase(ck, "waiting-for-coqc", _tw)
     for st, (spec, passes, seed) in mism[:5]:
         path = ck.write_replay({"kind": "correspondence-mismatch", "pass": st.pass_name, "step_kind": st.kind, "spec": spec,
                                 "passes": passes, "input_seed": seed, "model_expr": st.expr,
